@@ -247,7 +247,7 @@ BOUNDED.append(Bounded("C12.time_texts", P + ["C13", "C03", "C04"], _time_texts,
 import types
 import z3
 from pyvc.core import Contract, Case
-from pyvc.values import SV, SymObj, SymStr, NativeModel, GenericIter
+from pyvc.values import SV, SymObj, SymStr, NativeModel, GenericIter, Unsupported
 from pyvc import library
 
 from wntr.epanet.io import InpFile
@@ -805,6 +805,264 @@ def _source_case(units, stype, has_pattern):
     return Case("%s,%s,pattern=%s" % (units.name, stype, has_pattern), build, crosscheck=False)
 
 
+# ---------------------------------------------------------------------------- [QUALITY], [MIXING], [STATUS], [DEMANDS]
+
+class _WnQ(NativeModel):
+    """one node / one link model for the sections that set attributes of existing elements"""
+
+    def __init__(self, nodes=None, links=None, quality=None, pumps=(), valves=(), tanks=(), junctions=(), patterns=()):
+        self.nodes, self.links = nodes or {}, links or {}
+        self.options = types.SimpleNamespace(quality=types.SimpleNamespace(parameter=quality))
+        self.pump_name_list, self.valve_name_list, self.tank_name_list = list(pumps), list(valves), list(tanks)
+        self.junction_name_list, self.pattern_name_list = list(junctions), list(patterns)
+
+    def _find(self, table, n):
+        for k, v in table.items():
+            if isinstance(k, SV) and isinstance(n, SV) and k.t.eq(n.t):
+                return v
+        raise KeyError(n)
+
+    def get_node(self, n):
+        return self._find(self.nodes, n)
+
+    def get_link(self, n):
+        return self._find(self.links, n)
+
+    def get_pattern(self, n):
+        return types.SimpleNamespace(name=n)
+
+
+def _quality_case(units, parameter, mass):
+    def build(cx):
+        from contracts.c17_units import qual_spec
+        from wntr.epanet.util import QualParam
+        nn, q = cx.name("node"), cx.real("initial_quality")
+        cx.assume(cx.t(q) != 0)                    # a node with zero initial quality has no line (by design: zero is the default)
+        nw = SymObj(Junction, dict(_name=nn, _initial_quality=q))
+        nr = SymObj(Junction, dict(_name=nn, _initial_quality=None))
+        wnw, wnr = _WnQ(nodes={nn: nw}, quality=parameter), _WnQ(nodes={nn: nr}, quality=parameter)
+        inpw, inpr = _inp(units, wnw), _inp(units, wnr)
+        inpw.fields["mass_units"] = inpr.fields["mass_units"] = mass
+        cx.target(_roundtrip_call, InpFile._write_quality, InpFile._read_quality, "[QUALITY]", inpw, inpr, wnw)
+
+        def post(out):
+            if not out.returned:
+                return []
+            toks = inpr.fields["sections"]["[QUALITY]"][0][1].tokens() if out.value == 1 else []
+            posts = [("one_line_per_node_with_an_initial_quality", out.value == 1),
+                     ("initial_quality_round_trips_under_the_model_s_quality_parameter", _eqn(nr.fields["_initial_quality"], q) if nr.fields["_initial_quality"] is not None else False)]
+            if toks:
+                par = {"CHEMICAL": QualParam.Concentration, "AGE": QualParam.WaterAge}.get(parameter)
+                k = qual_spec(par, units, mass, 1)[0] if par is not None else 1.0
+                posts.append(("written_value_is_in_the_file_s_unit_for_the_quality_parameter", _within(Rr(toks[1]) * real_val(k), Rr(q), 1e-9)))
+            return posts
+        cx.ensure(post)
+    return Case("%s,%s,%s" % (units.name, parameter, mass.name), build, crosscheck=False)
+
+
+def _mixing_case(model):
+    def build(cx):
+        from wntr.network.elements import MixType
+        tn, fr = cx.name("tank"), cx.real("mixing_fraction")
+        tw = SymObj(Tank, dict(_name=tn, _mixing_model=model, _mixing_fraction=fr))
+        tr = SymObj(Tank, dict(_name=tn, _mixing_model=None, _mixing_fraction=None))
+        wnw, wnr = _WnQ(nodes={tn: tw}, tanks=[tn]), _WnQ(nodes={tn: tr}, tanks=[tn])
+        cx.target(_roundtrip_call, InpFile._write_mixing, InpFile._read_mixing, "[MIXING]", _inp(FlowUnits.SI, wnw), _inp(FlowUnits.SI, wnr), wnw)
+
+        def post(out):
+            if not out.returned:
+                return []
+            same = {MixType.Mix1: (MixType.Mix1, MixType.Mixed), MixType.Mix2: (MixType.Mix2, MixType.TwoComp)}.get(model, (model,))
+            posts = [("one_line_per_tank_with_a_mixing_model", out.value == 1),
+                     ("mixing_model_round_trips", tr.fields["_mixing_model"] in same)]
+            if model in (MixType.Mix2, MixType.TwoComp):
+                posts.append(("two_compartment_fraction_round_trips", _eqn(tr.fields["_mixing_fraction"], fr) if tr.fields["_mixing_fraction"] is not None else False))
+            return posts
+        cx.ensure(post)
+    return Case(str(model), build, crosscheck=False)
+
+
+def _status_case(kind):
+    """[STATUS]: kind in pump_closed / pump_speed / valve_open / valve_closed"""
+    def build(cx):
+        from wntr.network.elements import PowerPump
+        ln = cx.name("link")
+        if kind.startswith("pump"):
+            speed = cx.real("speed")
+            if kind == "pump_speed":
+                cx.assume(cx.t(speed) != 1)         # speed 1 is the default: no line
+            st = LinkStatus.Closed if kind == "pump_closed" else LinkStatus.Open
+            lw = SymObj(PowerPump, dict(_link_name=ln, _initial_status=st, _initial_setting=speed, _user_status=st))
+            lr = SymObj(PowerPump, dict(_link_name=ln, _initial_status=LinkStatus.Open, _initial_setting=1.0, _user_status=LinkStatus.Open))
+            wnw, wnr = _WnQ(links={ln: lw}, pumps=[ln]), _WnQ(links={ln: lr}, pumps=[ln])
+        else:
+            st = LinkStatus.Open if kind == "valve_open" else LinkStatus.Closed
+            S = cx.real("initial_setting")
+            lw = SymObj(PRValve, dict(_link_name=ln, _initial_status=st, _initial_setting=S, _user_status=st))
+            lr = SymObj(PRValve, dict(_link_name=ln, _initial_status=LinkStatus.Active, _initial_setting=S, _user_status=LinkStatus.Active))
+            wnw, wnr = _WnQ(links={ln: lw}, valves=[ln]), _WnQ(links={ln: lr}, valves=[ln])
+        cx.target(_roundtrip_call, InpFile._write_status, InpFile._read_status, "[STATUS]", _inp(FlowUnits.SI, wnw), _inp(FlowUnits.SI, wnr), wnw)
+
+        def post(out):
+            if not out.returned:
+                return []
+            posts = [("one_line_for_a_link_off_its_default_state", out.value == 1),
+                     ("initial_status_round_trips", lr.fields["_initial_status"] is st),
+                     ("the_status_in_force_at_time_zero_is_the_initial_status", lr.fields["_user_status"] is st)]
+            if kind == "pump_speed":
+                posts.append(("pump_speed_round_trips", _eqn(lr.fields["_initial_setting"], speed)))
+            if kind.startswith("valve"):
+                posts.append(("valve_setting_left_to_the_valves_section", lr.fields["_initial_setting"] is S))
+            return posts
+        cx.ensure(post)
+    return Case(kind, build, crosscheck=False)
+
+
+class _DemandList(NativeModel):
+    """the demand list of a junction as the [DEMANDS] writer and reader use it: len, iteration, index, del [-1], append((base, pattern, category))"""
+
+    def __init__(self, items):
+        self.items = list(items)
+
+    def __len__(self):
+        return len(self.items)
+
+    def __iter__(self):
+        return iter(self.items)
+
+    def __getitem__(self, i):
+        return self.items[i]
+
+    def __delitem__(self, i):
+        del self.items[i]
+
+    def append(self, x):
+        self.items.append(x)
+
+
+def _demands_case(units, n, with_pattern, with_category):
+    def build(cx):
+        jn = cx.name("junction")
+        pats = [cx.name("pattern%d" % i) for i in range(n)]
+        cats = [cx.name("category%d" % i) for i in range(n)]
+        bases = [cx.real("base%d" % i) for i in range(n)]
+        ds = [_Bag(base_value=bases[i], pattern_name=(pats[i] if with_pattern else None), category=(cats[i] if with_category else None)) for i in range(n)]
+        from pyvc.values import NameSort, name_const
+        low = z3.Function("lower_case", NameSort, NameSort)
+        for c_ in cats:
+            cx.assume(cx.t(c_) != name_const(""))                  # requires: a category is a non-empty text (an empty one is "no category")
+            cx.assume(low(cx.t(c_)) != name_const("none"))          # requires: no category is literally the text 'none' (the writer's spelling of "no category")
+        jw = SymObj(Junction, dict(_name=jn, _demand_timeseries_list=_DemandList(ds)))
+        stale = _Bag(base_value=cx.real("demand_from_the_junctions_section"), pattern_name=None, category=None)
+        lst = _DemandList([stale])
+        jr = SymObj(Junction, dict(_name=jn, _demand_timeseries_list=lst))
+        wnw = _WnQ(nodes={jn: jw}, junctions=[jn], patterns=(pats if with_pattern else []))
+        wnr = _WnQ(nodes={jn: jr}, junctions=[jn])
+        inpr = _inp(units, wnr)
+        cx.target(_roundtrip_call, InpFile._write_demands, InpFile._read_demands, "[DEMANDS]", _inp(units, wnw), inpr, wnw)
+
+        def post(out):
+            if not out.returned:
+                return []
+            got = lst.items
+            posts = [("one_line_per_demand_entry", out.value == n),
+                     ("the_demands_section_replaces_the_entry_of_the_junctions_section_and_keeps_the_order", len(got) == n and all(isinstance(g, tuple) and len(g) == 3 for g in got))]
+            if not (len(got) == n and all(isinstance(g, tuple) and len(g) == 3 for g in got)):
+                return posts
+            from contracts.c17_units import hyd_spec
+            from wntr.epanet.util import HydParam
+            kq = hyd_spec(HydParam.Flow, units, False)[0]
+            lines = [ln[1].tokens() for ln in inpr.fields["sections"]["[DEMANDS]"]]
+            for i, g in enumerate(got):
+                posts.append(("demand_%d_base_value_round_trips" % i, _eqn(g[0], bases[i])))
+                posts.append(("demand_%d_written_as_a_flow_in_the_file_s_flow_unit" % i, _within(Rr(lines[i][1]) * real_val(kq), Rr(bases[i]), 1e-6) if len(lines) == n else False))
+                posts.append(("demand_%d_pattern_kept" % i, (getattr(g[1], "name", None) is not None and g[1].name.t.eq(pats[i].t)) if with_pattern else g[1] is None))
+                if with_category:
+                    c = g[2]
+                    toks = c.tokens() if isinstance(c, SymStr) else [c]
+                    posts.append(("demand_%d_category_kept" % i, len(toks) == 1 and isinstance(toks[0], SV) and toks[0].t.eq(cats[i].t)))
+                else:
+                    posts.append(("demand_%d_has_no_category" % i, g[2] is None))
+            return posts
+        cx.ensure(post)
+    return Case("%s,%d entries,pattern=%s,category=%s" % (units.name, n, with_pattern, with_category), build, crosscheck=False)
+
+
+class _PieceFile(NativeModel):
+    """a file written in pieces (the [PATTERNS] writer starts each line with '\\n' and appends the further multipliers): lines are assembled from the
+    pieces' tokens; a piece whose text starts with a newline starts a new line"""
+
+    def __init__(self):
+        self.lines = []
+
+    def write(self, x):
+        if isinstance(x, SymStr):
+            starts_line = isinstance(x.fmt, str) and x.fmt.startswith("\n")
+            toks = x.tokens()
+            if starts_line or not self.lines:
+                self.lines.append(list(toks))
+            else:
+                self.lines[-1].extend(toks)
+        else:
+            t = x.decode() if isinstance(x, bytes) else x
+            if t.strip() and not t.lstrip().startswith(("[", ";")):
+                raise Unsupported("an unexpected concrete data line in [PATTERNS]: %r" % t)
+            if t.endswith("\n") and self.lines and self.lines[-1]:
+                self.lines.append([])            # the line is closed
+
+
+    def numbered_lines(self):
+        return [(i + 1, SymStr((), tokens=t)) for i, t in enumerate(t for t in self.lines if t)]
+
+    def every_line_starts_with_a_name(self):
+        return all(isinstance(t[0], SV) and t[0].k == "name" and all(isinstance(x, SV) and x.k in ("real", "int") for x in t[1:]) for t in self.lines if t)
+
+    def line_lengths(self):
+        return [len(t) for t in self.lines if t]
+
+
+def _patterns_roundtrip(inpw, inpr, wnw):
+    f = _PieceFile()
+    InpFile._write_patterns(inpw, f, wnw)
+    if not f.every_line_starts_with_a_name():
+        return None                      # the writer's own postcondition fails: nothing to hand to the reader
+    inpr.sections["[PATTERNS]"] = f.numbered_lines()
+    InpFile._read_patterns(inpr)
+    return f.line_lengths()
+
+
+def _patterns_case(k):
+    def build(cx):
+        pn = cx.name("pattern")
+        from pyvc.values import name_const
+        cx.assume(cx.t(pn) != name_const("1"))
+        mult = [cx.real("multiplier%d" % i) for i in range(k)]
+        pat = _Bag(multipliers=list(mult), name=pn)
+        wnw = _Bag(pattern_name_list=[pn], get_pattern=lambda n: pat)
+        wnr = WnR(pattern=None)
+        cx.target(_patterns_roundtrip, _inp(FlowUnits.SI, wnw), _inp(FlowUnits.SI, wnr), wnw)
+
+        def post(out):
+            if not out.returned:
+                return []
+            want_lines = [1 + min(6, k - 6 * j) for j in range((k + 5) // 6)]
+            if out.value is None:
+                return [("every_line_is_the_pattern_name_followed_by_multipliers", False)]
+            posts = [("six_multipliers_per_line_each_line_starting_with_the_pattern_name", out.value == want_lines),
+                     ("one_pattern_read", len(wnr.calls) == 1 and wnr.calls[0][0] == "add_pattern")]
+            if len(wnr.calls) != 1:
+                return posts
+            a_ = wnr.calls[0][1]
+            posts.append(("pattern_name_kept", isinstance(a_[0], SV) and a_[0].t.eq(pn.t)))
+            posts.append(("as_many_multipliers_as_written", len(a_[1]) == k))
+            if len(a_[1]) == k:
+                posts.append(("multipliers_round_trip_in_order", z3.And(*[_eqn(a_[1][i], mult[i]) for i in range(k)])))
+            posts.append(("no_default_pattern_invented", wnr.options.hydraulic.pattern is None))
+            return posts
+        cx.ensure(post)
+    return Case("%d multipliers" % k, build, crosscheck=False)
+
+
 # ---------------------------------------------------------------------------- simple controls: [CONTROLS] lines
 
 def _token_models():
@@ -817,6 +1075,14 @@ def _token_models():
         from pyvc.values import NameSort
         return SV(z3.Function("upper_case", NameSort, NameSort)(v.t), "name")
     m.register("sym:SV.upper", upper, trusted="token model: upper() of a numeric token is the token; of a name some name")
+
+    def lower(interp, args, kw):
+        v = args[0]
+        if v.k in ("int", "real"):
+            return v
+        from pyvc.values import NameSort
+        return SV(z3.Function("lower_case", NameSort, NameSort)(v.t), "name")
+    m.register("sym:SV.lower", lower, trusted="token model: lower() of a name is some name")
     return m
 
 
@@ -925,6 +1191,8 @@ _U = [getattr(FlowUnits, u) for u in UNITS]
 _pair_trust = ["token model: float(format(v)) == v for the 11/12-significant-digit formats, names contain no blanks",
                "to_si / from_si are exact inverses with the right parameter (C17, proved)",
                "the [SECTION] splitter of InpFile.read hands each data line to the section reader (bounded by C12.round_trip)"]
+from wntr.network.elements import MixType as _MixType
+
 CONTRACTS = [
     Contract("wntr.epanet.io:InpFile._write_pipes/_read_pipes", P, [_pipe_case(u, hl, st, cv) for u in _U for hl in ("H-W", "D-W")
                                                                       for (st, cv) in ((LinkStatus.Open, False), (LinkStatus.Closed, False), (LinkStatus.Open, True))],
@@ -962,6 +1230,18 @@ CONTRACTS = [
              note="pump head curves: flow / head; tank volume curves: depth / volume; efficiency curves: flow / percent; GPV head loss curves: flow / head loss "
                   "in feet or metres (EPANET manual); untyped curves are written as they are",
              trusted=_pair_trust),
+    Contract("wntr.epanet.io:InpFile._write_patterns/_read_patterns", P + ["C20"], [_patterns_case(k_) for k_ in (1, 5, 6, 7, 12, 13)],
+             interpret_always=(_patterns_roundtrip,), models=_token_models,
+             trusted=_pair_trust + ["token model applied to '{:f}' (six decimals): the text round-off of multipliers is decided in the bounded layer only"]),
+    Contract("wntr.epanet.io:InpFile._write_quality/_read_quality", P, [_quality_case(u, par, mu) for u in (FlowUnits.GPM, FlowUnits.LPS, FlowUnits.CMH)
+                                                                        for par in ("CHEMICAL", "AGE", "TRACE", "NONE") for mu in (MassUnits.mg, MassUnits.ug)],
+             interpret_always=(_roundtrip_call,), trusted=_pair_trust),
+    Contract("wntr.epanet.io:InpFile._write_mixing/_read_mixing", P, [_mixing_case(m_) for m_ in (_MixType.Mix1, _MixType.Mix2, _MixType.FIFO, _MixType.LIFO)],
+             interpret_always=(_roundtrip_call,), trusted=_pair_trust),
+    Contract("wntr.epanet.io:InpFile._write_status/_read_status", P + ["C02"], [_status_case(k_) for k_ in ("pump_closed", "pump_speed", "valve_open", "valve_closed")],
+             interpret_always=(_roundtrip_call,), models=_token_models, trusted=_pair_trust),
+    Contract("wntr.epanet.io:InpFile._write_demands/_read_demands", P + ["C01"], [_demands_case(u, n_, wp, wc) for u in _U for (n_, wp, wc) in ((2, True, True), (2, False, False), (1, True, True), (3, True, False))],
+             interpret_always=(_roundtrip_call,), models=_token_models, trusted=_pair_trust),
     Contract("wntr.epanet.io:InpFile._write_valves/_read_valves", P, [_valve_case(u, c) for u in _U for c in (PRValve, PSValve, PBValve, FCValve, TCValve)],
              interpret_always=(_roundtrip_call,), trusted=_pair_trust),
 ]
